@@ -330,11 +330,73 @@ class C19:
             return None
         return f"container type {shape_str(shape)}"
 
+    def hash_by_interpretation(self, ci) -> bool:
+        """A model whose __hash__ is not written in its own body but supplied as a class-level value (`__hash__ = hash_by("uuid")`)
+        or by a base class of the package (a shared `IdentifiedModel` with an overridable identity): the hash function is
+        interpreted (sa/meval.Machine) on a model instance that has exactly the declared fields of the class, with distinct
+        hashable values.  If it runs, it read nothing but declared fields (anything else -- private state, `id`, `model_extra`,
+        a cached value -- is outside the model and stops the interpretation), i.e. it is a function of what equality compares.
+        True = the class has such a __hash__ (an instance was recorded, PASS or not)."""
+        import ast as _ast
+        from sa.meval import Machine, ModelRaise, _Record
+        from sa.peval import Unknown
+        from sa.sym import Evaluator, TRUE
+        ctx, m = self.ctx, self.ctx.models
+        assigned = [st for st in ci.node.body if isinstance(st, _ast.Assign) and any(isinstance(t_, _ast.Name) and t_.id == "__hash__" for t_ in st.targets)]
+        inherited = None
+        try:
+            for b in ci.mro()[1:]:
+                if b.module.name.startswith("soundevent") and "__hash__" in b.methods:
+                    inherited = b
+                    break
+        except Exception:  # noqa: BLE001
+            inherited = None
+        if not assigned and inherited is None:
+            return False
+        line = assigned[0].lineno if assigned else ci.node.lineno
+        site = f"{ci.module.relpath}:{line} {ci.name}.__hash__"
+        for c in ci.mro():
+            if "__eq__" in c.methods:
+                ctx.bad("R19.3", ci.module.relpath, f"{ci.name}.__hash__", "__eq__ overridden", f"{c.name} overrides __eq__ (equality no longer field-wise)", line)
+                return True
+        M = Machine(ctx.summ, ctx.index)
+        fm = m.field_map(ci)
+        for fname, fi in fm.items():
+            why = self.hash_consistent(fi.shape)
+            # (fields that are not hashable consistently may exist as long as the hash does not read them: checked by leaving them out)
+            del why
+        try:
+            outs = []
+            for variant in (0, 1):
+                fields = {fname: (f"<{fname}>" if variant == 0 else f"<{fname}#2>") for fname, fi in fm.items() if self.hash_consistent(fi.shape) is None}
+                rec = _Record(ci, fields, False)
+                if assigned:
+                    fn = M.ev(Evaluator(ctx.index, ci.module, assigned[0].value, f"{ci.qual}.<__hash__>", None).ev(assigned[0].value, TRUE), {}, None)
+                    v1, v2 = fn(rec), fn(_Record(ci, dict(fields), False))
+                else:
+                    v1, v2 = M._getattr(rec, "__hash__")(), M._getattr(_Record(ci, dict(fields), False), "__hash__")()
+                if not isinstance(v1, int) or v1 != v2:
+                    ctx.bad("R19.3", ci.module.relpath, f"{ci.name}.__hash__", "hash of two equal instances",
+                            f"two {ci.name} instances with the same field values get different hashes ({v1!r} / {v2!r})", line)
+                    return True
+                outs.append(v1)
+        except (Unknown, ModelRaise, RecursionError) as e:
+            ctx.undec("R19.3", site, f"the hash supplied to {ci.name} from outside its body cannot be interpreted on a model instance with exactly the "
+                                     f"declared, consistently hashable fields: {str(e)[:120]}")
+            return True
+        ctx.ok("R19.3", site, f"hash supplied {'as a class-level value' if assigned else 'by ' + inherited.name}: interpreted on a model instance, it reads declared fields "
+                              f"only (equal instances hash equally{'; depends on the fields' if outs[0] != outs[1] else ''}); field-wise __eq__")
+        return True
+
     def check_hashes(self):
         ctx, m = self.ctx, self.ctx.models
         n = 0
         for ci in m.all_models():
-            if not ci.module.name.startswith(DATA + ".") or "__hash__" not in ci.methods:
+            if not ci.module.name.startswith(DATA + "."):
+                continue
+            if "__hash__" not in ci.methods:
+                if self.hash_by_interpretation(ci):
+                    n += 1
                 continue
             n += 1
             file = ci.module.relpath
